@@ -57,7 +57,7 @@ def run(ctx):
         r = call_guard(lambda: sf.decoder(x, **k), expected=(sf.DecoderError,))
         return r[:2] if r[0] != "esc" else r[:3]
 
-    for it in range(2000 if quick else 25000):
+    for it in range(2000 if quick else 150000):
         if it % 100 == 0:
             sf.set_semantic_constraints(rng.choice(["default", "hypervalent", "octet_rule", {"?": 6, "C": 4, "N": 3}]))
             table = sf.get_semantic_constraints()
